@@ -23,7 +23,7 @@ class D(Driver):
         "unsupported elements (filter, mask, image, text, style, symbol, marker, pattern, foreignObject, a, switch, script, animate), noise "
         "(comments, PIs, title/desc/metadata, foreign namespaces, anonymous symbols, wrapper groups) and root presentation attributes, "
         "x ndigits 0..6 x allow_text x drop_unsupported; the SVG files under tests/ under all option combinations; a CLI slice "
-        "(python -m picosvg.picosvg with --allow_text/--drop_unsupported, stdin and file input, stdout and --output_file) whose output "
+        "(python -m picosvg.picosvg with --allow_text/--drop_unsupported/--clip_to_viewbox, stdin and file input, stdout and --output_file) whose output "
         "must also equal the library's. Every normal return is validated against the grammar by an independent validator over a stdlib "
         "XML parse that keeps comments and PIs. Non-trivial = distinct converted documents with >= 1 path and >= 1 of {group kept, gradient "
         "kept, text kept, unsupported element dropped}."
@@ -45,6 +45,7 @@ class D(Driver):
     )
     optional_anchors = ("picosvg._run",)
     nt_floor = {"quick": 300, "thorough": 6000}
+    feature_floors = {"cli_clip_outputs_judged": 4}
     time_budget = {"quick": 150, "thorough": 1200}
     use_reach = True
 
@@ -172,6 +173,11 @@ class D(Driver):
                 args.append("--allow_text")
             if du:
                 args.append("--drop_unsupported")
+            clip = rng.random() < 0.4
+            if clip:
+                # the CLI's own extra step: what it prints must still be a picosvg (numbers rounded, groups tidy)
+                args.append("--clip_to_viewbox")
+                bump(res["features"], "cli_runs_with_clip_to_viewbox")
             outp = os.path.join(tmp, "out.svg")
             if use_outfile:
                 args += ["--output_file", outp]
@@ -190,6 +196,8 @@ class D(Driver):
             stagemon.reset()
             try:
                 svg = self.SVG.fromstring(doc).topicosvg(allow_text=at, drop_unsupported=du)
+                if clip:
+                    svg.clip_to_viewbox(inplace=True)
                 lib = svg.tostring(pretty_print=True)
                 st = "ok"
             except Exception as e:
@@ -205,6 +213,12 @@ class D(Driver):
             if st != "ok":
                 res["viol"].append(dict(rule="cli_vs_library", sig="cli_converts_library_fails", msg=f"CLI {args[3:]} succeeded but the library call raises\nSOURCE: {doc[:1500]}",
                                         replay={"kind": "doc", "doc": doc, "ndigits": 3, "allow_text": at, "drop_unsupported": du}))
+                return
+            if clip:
+                # no byte comparison on this route (the CLI rounds after clipping); the printed document is
+                # judged on its own by the grammar validator
+                bump(res["features"], "cli_clip_outputs_judged")
+                self.judge(res, doc, out, 3, at, du, meta, entry="CLI --clip_to_viewbox")
                 return
             if out.strip() != lib.strip():
                 res["viol"].append(dict(rule="cli_vs_library", sig="cli_output_differs", msg=f"CLI {args[3:]} output differs from the library's tostring(pretty_print=True)\nCLI: {out[:600]}\nLIB: {lib[:600]}",
